@@ -1145,6 +1145,36 @@ Proof.
   - exists rs. split; [exact H1|]. intros m Hm. apply H2. exact Hm.
 Qed.
 
+Lemma bind_ok : forall {A B} (r : result A) (f : A -> result B) a, r = Ok a -> bind r f = f a.
+Proof. intros A B r f a H. rewrite H. reflexivity. Qed.
+
+Definition teardown_step (acc : result (chain name)) (n : name) : result (chain name) :=
+  bind acc (fun c' => bind (teardown_fixture c' n) (fun vc => Ok (snd vc))).
+
+Lemma teardown_loop_ok : forall todo fxs rs parents, NoDup todo -> (forall m, In m todo -> results_find rs m <> None) ->
+  exists rs', fold_left teardown_step todo (Ok ((fxs, rs) :: parents)) = Ok ((fxs, rs') :: parents).
+Proof.
+  induction todo as [|n todo IH]; intros fxs rs parents Hnd Hrs; [exists rs; reflexivity|].
+  inversion Hnd as [|? ? Hnot Hnd']. subst.
+  cbn [fold_left]. unfold teardown_step at 2. cbn [bind]. unfold teardown_fixture. cbn [snd fst].
+  destruct (results_find rs n) as [v|] eqn:E; [|exfalso; exact (Hrs n (or_introl eq_refl) E)].
+  cbn [bind snd]. apply IH; [exact Hnd'|]. intros m Hm.
+  assert (Hmn : m <> n) by (intros Heq; subst m; exact (Hnot Hm)).
+  rewrite (results_remove_find _ _ _ Hmn). apply Hrs. right. exact Hm.
+Qed.
+
+(* no "has not been previously executed" assertion when a completely set up level is torn down in reverse order *)
+Theorem teardown_all_ok : forall fxs rs parents, NoDup (map fx_name fxs) -> full_level (fxs, rs) ->
+  exists c', teardown_all ((fxs, rs) :: parents) = Ok c'.
+Proof.
+  intros fxs rs parents Hnd Hfull.
+  change (teardown_all ((fxs, rs) :: parents)) with (fold_left teardown_step (rev (sf_names (fxs, rs))) (Ok ((fxs, rs) :: parents))).
+  destruct (teardown_loop_ok (rev (sf_names (fxs, rs))) fxs rs parents) as [rs' H].
+  - apply NoDup_rev. exact Hnd.
+  - intros m Hm. apply Hfull. apply in_rev. exact Hm.
+  - exists ((fxs, rs') :: parents). exact H.
+Qed.
+
 (* ================================================================ one level of the schedule *)
 Definition reach (reg : registry) (direct : list name) (y : name) : Prop :=
   exists f, In f direct /\ clos_refl_trans name (Edge (reg_find reg)) f y.
@@ -1361,7 +1391,9 @@ Section DryRun.
     - intros f Hf. pose proof (Htreg f Hf) as Hm. apply reg_mem_true in Hm. destruct Hm as [ff Hff].
       apply (level_lookup_ok reg (test_fixtures t) ScTest fxs rs _ f ff Hfacts Hfull' Hcov Hf Hff).
       destruct (fx_scope ff); simpl; lia.
-    - rewrite Hl. reflexivity.
+    - rewrite Hl. cbn [bind].
+      destruct (teardown_all_ok fxs rs ((fxs_s, rs_s) :: c1) (proj1 Hfacts) (Hfull' _ (or_introl eq_refl))) as [c' Hc'].
+      rewrite (bind_ok _ _ _ Hc'). reflexivity.
   Qed.
 
   Lemma has_enabled_false : forall inh s t, has_enabled_tests inh s = false -> In t (su_tests s) -> test_enabled (inh || su_disabled s) t = false.
@@ -1395,7 +1427,8 @@ Section DryRun.
                Ok c)))
              else Ok (new_level fxs :: c1)) (fun c =>
        bind (for_each (fun t => if test_enabled (inh || d) t || fd then dry_run_test reg c t else Ok tt) ts) (fun _ =>
-       for_each (dry_run_suite reg fd c1 (inh || d)) subs)))).
+       bind (if has_enabled_tests inh s || fd then bind (teardown_all c) (fun _ => Ok tt) else Ok tt) (fun _ =>
+       for_each (dry_run_suite reg fd c1 (inh || d)) subs))))).
     unfold get_fixtures_scheduled_for_suite. fold direct_s. rewrite Hsched. cbn [bind].
     assert (Hsubs : for_each (dry_run_suite reg fd c1 (inh || d)) subs = Ok tt).
     { apply for_each_ok. intros sub Hsub. apply (IH sub Hsub).
@@ -1419,7 +1452,9 @@ Section DryRun.
         apply (dry_run_test_ok direct_s fxs rs t Hfacts Hfull' HsD).
         - intros f Hf. apply used_in_suite_In. split; [exact Hen|]. right. exists t. auto.
         - intros f Hf. exact (Htfx t f Ht Hf). }
-      rewrite Htests. cbn [bind]. exact Hsubs.
+      rewrite Htests. cbn [bind].
+      destruct (teardown_all_ok fxs rs c1 (proj1 Hfacts) (Hfull' _ (or_introl eq_refl))) as [c' Hc'].
+      rewrite (bind_ok _ _ _ Hc'). cbn [bind]. exact Hsubs.
     - cbn [bind].
       assert (Htests : for_each (fun t => if test_enabled (inh || d) t || fd then dry_run_test reg (new_level fxs :: c1) t else Ok tt) ts = Ok tt).
       { apply for_each_ok. intros t Ht. apply orb_false_iff in Hen. destruct Hen as [Hen1 Hen2].
@@ -1427,9 +1462,6 @@ Section DryRun.
       rewrite Htests. cbn [bind]. exact Hsubs.
   Qed.
 End DryRun.
-
-Lemma bind_ok : forall {A B} (r : result A) (f : A -> result B) a, r = Ok a -> bind r f = f a.
-Proof. intros A B r f a H. rewrite H. reflexivity. Qed.
 
 Theorem dry_run_ok : forall reg suites, registry_ok reg -> check_fixtures_in_suites reg suites = Ok tt ->
   forall fd, dry_run reg suites fd = Ok tt.
@@ -1456,8 +1488,14 @@ Proof.
     destruct Hpre as [_ [Hn _]]. apply Hn. split; [exact Hreach|]. exists fy. split; [exact Hfy|].
     destruct (fx_scope fy); simpl in Hlt; try lia. reflexivity. }
   rewrite (bind_ok _ _ _ Hsetup1).
-  apply for_each_ok. intros s Hs.
-  apply (dry_run_suite_ok reg fd D0 pre ses rs_pre rs_ses Hok Hpre Hses Hfull1).
-  - intros s' Hs'. apply Huses. apply flatten_suites_In. exists s. auto.
-  - intros f Hf. apply used_suites_In. exists s. auto.
+  assert (Hsuites : for_each (dry_run_suite reg fd [(ses, rs_ses); (pre, rs_pre)] false) suites = Ok tt).
+  { apply for_each_ok. intros s Hs.
+    apply (dry_run_suite_ok reg fd D0 pre ses rs_pre rs_ses Hok Hpre Hses Hfull1).
+    - intros s' Hs'. apply Huses. apply flatten_suites_In. exists s. auto.
+    - intros f Hf. apply used_suites_In. exists s. auto. }
+  rewrite (bind_ok _ _ _ Hsuites).
+  destruct (teardown_all_ok ses rs_ses [(pre, rs_pre)] (proj1 Hses) (Hfull1 _ (or_introl eq_refl))) as [c' Hc'].
+  rewrite (bind_ok _ _ _ Hc').
+  destruct (teardown_all_ok pre rs_pre [] (proj1 Hpre) (Hfull0 _ (or_introl eq_refl))) as [c'' Hc''].
+  rewrite (bind_ok _ _ _ Hc''). reflexivity.
 Qed.
